@@ -1,7 +1,8 @@
 //! C05 area `c05e` (engine level, oracle only) — see bin/c05.rs header.
 //! Every line is one or a few real transactions on a `LedgerSimulator`; after every line the repo's
-//! `KernelDatabaseChecker` and `SystemDatabaseChecker<RoleAssignmentDatabaseChecker>` (and, every
-//! few lines, `SystemDatabaseChecker<ResourceDatabaseChecker>`) scan the whole substate database.
+//! `KernelDatabaseChecker` and `SystemDatabaseChecker<RoleAssignmentDatabaseChecker>` scan the whole
+//! substate database.  (`ResourceDatabaseChecker` is not used: it is `todo!()` for the
+//! LockedBalance / FreezeStatus vault fields and panics on any ledger that has them.)
 use harness::util::*;
 use radix_common::prelude::*;
 use radix_engine::system::checkers::*;
@@ -89,11 +90,6 @@ impl ER {
                     if !violations.is_empty() {
                         return Some(("role-assignment-checker".to_string(), format!("{:?}", violations).chars().take(300).collect()));
                     }
-                }
-            }
-            if self.n % 4 == 0 {
-                if let Err(e) = ledger.check_db::<ResourceDatabaseChecker>() {
-                    return Some(("system-db-checker".to_string(), format!("{:?}", e).chars().take(300).collect()));
                 }
             }
             None
